@@ -1,4 +1,7 @@
 #include "runtime.h"
+#ifdef SQFVM_RUNTIME_VERIF
+#include "verif_hooks.h"
+#endif // SQFVM_RUNTIME_VERIF
 #include "diagnostics/stacktrace.h"
 #include "d_array.h"
 #include "d_string.h"
@@ -96,7 +99,11 @@ static sqf::runtime::runtime::result execute_do(sqf::runtime::runtime& runtime, 
 
         auto instruction = frame.current();
         if (runtime.configuration().max_runtime != std::chrono::milliseconds::zero() &&
+#ifdef SQFVM_RUNTIME_VERIF
+            runtime.configuration().max_runtime + runtime.runtime_timestamp() < sqf::verif::now())
+#else
             runtime.configuration().max_runtime + runtime.runtime_timestamp() < std::chrono::system_clock::now())
+#endif // SQFVM_RUNTIME_VERIF
         {
 #ifdef DF__SQF_RUNTIME__ASSEMBLY_DEBUG_ON_EXECUTE
             std::cout << "\x1B[33m[ASSEMBLY ASSERT]\033[0m" <<
@@ -328,10 +335,18 @@ sqf::runtime::runtime::result sqf::runtime::runtime::execute(sqf::runtime::runti
                     m_context_active = m_contexts[i];
                     if (m_context_active->suspended())
                     {
+#ifdef SQFVM_RUNTIME_VERIF
+                        if (m_context_active->wakeup_timestamp() <= sqf::verif::now())
+#else
                         if (m_context_active->wakeup_timestamp() <= std::chrono::system_clock::now())
+#endif // SQFVM_RUNTIME_VERIF
                         {
                             m_context_active->unsuspend();
+#ifdef SQFVM_RUNTIME_VERIF
+                            res = execute_do(*this, sqf::verif::slice());
+#else
                             res = execute_do(*this, 150);
+#endif // SQFVM_RUNTIME_VERIF
                         }
                         else
                         {
@@ -340,7 +355,11 @@ sqf::runtime::runtime::result sqf::runtime::runtime::execute(sqf::runtime::runti
                     }
                     else
                     {
+#ifdef SQFVM_RUNTIME_VERIF
+                        res = execute_do(*this, sqf::verif::slice());
+#else
                         res = execute_do(*this, 150);
+#endif // SQFVM_RUNTIME_VERIF
                     }
                     if (m_is_exit_requested)
                     {
